@@ -219,16 +219,16 @@ package redis
 
 //@ func (*Reader).ReadBytes
 //@   prop C10 C11
-//@   requires readerRI(b)
-//@   modifies b.r, b.w, b.err, b.buf[0:len(b.buf)], b.slice.allocs, b.slice.buf, b.slice.buf[0:len(b.slice.buf)]
-//@   ensures @ri readerRI(b)
+//@   requires readerRI(b) && (b.err == nil ==> windowok(b))
+//@   modifies b.r, b.w, b.err, b.buf[0:len(b.buf)], b.slice.allocs, b.slice.buf, b.slice.buf[0:len(b.slice.buf)], fetched
+//@   ensures @ri readerRI(b) && b.buf == old(b.buf) && b.rd == old(b.rd) && (b.err == nil ==> windowok(b))
 //@   ensures @line result1 == nil ==> len(result0) >= 1
 //@   ensures @result-does-not-alias-the-read-buffer result1 == nil ==> disjoint(result0, b.buf)
 //@   requires @slab-apart disjoint(b.buf, b.slice.buf)
 //@   ensures @slab-apart disjoint(b.buf, b.slice.buf)
 //@   loop 0 invariant @fragments-are-copies forall j int :: 0 <= j && j < len(full) ==> disjoint(full[j], b.buf)
 //@   loop 0 invariant disjoint(b.buf, b.slice.buf)
-//@   loop 0 invariant readerRI(b) && 0 <= size && (!isnil(last) ==> size >= len(last) && len(last) >= 1)
+//@   loop 0 invariant readerRI(b) && (b.err == nil ==> windowok(b)) && b.rd == old(b.rd) && 0 <= size && (!isnil(last) ==> size >= len(last) && len(last) >= 1)
 //@   loop 0 invariant (cap(full) == 0 || fresh(full)) && (fresh(b.slice.buf) || within(b.slice.buf, old(b.slice.buf))) && b.buf == old(b.buf)
 //@   loop 0 assume size <= 2305843009213693952 && len(b.buf) <= 2305843009213693952
 //@   loop 1 invariant disjoint(buf, b.buf) && disjoint(b.buf, b.slice.buf) && b.buf == old(b.buf)
